@@ -349,6 +349,8 @@ class CallListerVisitor(ast.NodeVisitor):
                 kw.value for kw in node.keywords if kw.arg is not None]:
             if isinstance(arg, ast.Name):
                 self.visit_Name(arg)
+            elif isinstance(arg, ast.Call):
+                self.expose_nested_Call(arg)
 
     def visit_Call(self, node):
         if self.namespace.parent is None:
